@@ -30,6 +30,9 @@
    stays there -- and so do the later syncs, for as long as the subscriber keeps that publisher's sync client; the faults of
    the plan sit on the first address.
 
+   A depth limit (cfg.depth > 0, the subscriber's AdsDepthLimit): the walk covers the head and the depth - 1 blocks before it,
+   and a segmented sync then ends with the segment that uses the limit up -- whose hooks count like any other's.
+
    FIXED = FALSE additionally models the pinned Syncer.fetch: in plain-HTTP mode a 404/403
    latches noPath, and every later request of that Syncer goes to the path-less URL (and fails
    against a publisher mounted under /ipni/v1/ad).                                             *)
@@ -37,7 +40,8 @@ EXTENDS Integers, Sequences, FiniteSets, TLC, VerifIO
 
 CONSTANTS N, Segs, Kinds, MaxFaulty, FIXED, EXPORT,
           PairKinds,    \* kinds of a second fault at the very next request of the same sync ({}: single faults only)
-          MaxAddrs      \* 1, or 2: the publisher may be given with a second address (plain HTTP) the client can fail over to
+          MaxAddrs,     \* 1, or 2: the publisher may be given with a second address (plain HTTP) the client can fail over to
+          Depths        \* depth limits of the subscriber (0: none)
 Modes == {"plain", "libp2p"}
 Triggers == {"explicit", "announce"}
 BodyKinds == {"bitflip", "truncated", "appended", "other", "empty", "oversized"}
@@ -57,10 +61,11 @@ Faults == [at : 0..(N + 1), kind : Kinds, k2 : PairKinds \cup {"none"}]      \* 
 (* at = 0: the discovery requests that precede a publisher's first sync when it is reached through libp2p-HTTP discovery
    (/.well-known/libp2p/...).  Whatever happens to them, the client falls back to plain HTTP and the sync goes ahead.     *)
 DiscoveryKinds == {"reset", "s500", "s404"}
-Configs == {[mode |-> m, trigger |-> t, seg |-> s, addrs |-> a, faults |-> f] :
-              m \in Modes, t \in Triggers, s \in Segs, a \in 1..MaxAddrs, f \in UNION {[1..k -> Faults] : k \in 1..MaxFaulty}}
+Configs == {[mode |-> m, trigger |-> t, seg |-> s, addrs |-> a, depth |-> d, faults |-> f] :
+              m \in Modes, t \in Triggers, s \in Segs, a \in 1..MaxAddrs, d \in Depths, f \in UNION {[1..k -> Faults] : k \in 1..MaxFaulty}}
 FailOverKinds == {"reset", "stall"}      \* the request itself fails (no response): the client moves on to the next address
 Applicable(c) == /\ (c.addrs = 2 => c.mode = "plain")
+                 /\ (c.depth > 0 => (c.seg > 0 /\ c.addrs = 1 /\ \A i \in 1..Len(c.faults) : c.faults[i].k2 = "none"))   \* depth limits: segmented syncs, single faults
                  /\ \A i \in 1..Len(c.faults) : c.faults[i].at = 0 => (c.mode = "libp2p" /\ c.faults[i].kind \in DiscoveryKinds /\ c.faults[i].k2 = "none")
                  /\ \A i \in 1..Len(c.faults) :
                    /\ (c.faults[i].k2 = "hookfail" => c.seg > 0) /\ (c.faults[i].k2 = "cancel" => c.trigger = "explicit")
@@ -77,6 +82,7 @@ Init == /\ cfg \in {c \in Configs : Applicable(c)}
         /\ store = {} /\ latest = 0 /\ cached = FALSE /\ noPath = FALSE /\ rep = <<>> /\ log = <<>>
 
 Clean == phase > Len(cfg.faults)
+Within(x) == cfg.depth = 0 \/ N - x < cfg.depth          \* block x is within the depth limit counted from the head
 FaultAt(r) == IF Clean \/ over THEN "ok"
               ELSE IF cfg.faults[phase].at = r THEN cfg.faults[phase].kind
               ELSE IF cfg.faults[phase].at + 1 = r /\ cfg.faults[phase].k2 # "none" THEN cfg.faults[phase].k2
@@ -150,7 +156,7 @@ CancellingHook == ~Clean /\ cfg.faults[phase].kind = "hookcancel" /\ req >= cfg.
 (* After a block: continue the segment, or end the segment (hooks), or end the sync. *)
 NextBlock ==
   /\ pc = "next" /\ UNCHANGED cfg
-  /\ LET more == b - 1 >= 1 /\ b - 1 # latest
+  /\ LET more == b - 1 >= 1 /\ b - 1 # latest /\ Within(b - 1)
          segEnds == cfg.seg > 0 /\ segleft = 1
      IN IF more /\ ~segEnds
         THEN /\ b' = b - 1 /\ segleft' = (IF cfg.seg > 0 THEN segleft - 1 ELSE 0) /\ pc' = "fetch"
@@ -193,7 +199,7 @@ FailureIsClean ==
 Converges == pc = "done" =>
   LET last == log[Len(log)] IN
     /\ last.result \in {"ok", "nothing", "dropped"}
-    /\ last.latest = N /\ last.stored = 1..N
+    /\ last.latest = N /\ last.stored = {x \in 1..N : Within(x)}
 AnnounceRetryPossible == (cfg.trigger = "announce" /\ pc = "start" /\ phase > 1 /\ log[phase - 1].result = "error") => ~cached
 
 ExportBehaviour == (EXPORT /\ pc = "done") =>
